@@ -24,7 +24,7 @@ def main():
         if meta["breaks_property"] not in props:
             props.insert(0, meta["breaks_property"])
         r = subprocess.run(["python3", os.path.join(VERIF, "tools", "try_mutation.py"),
-                            os.path.join(d, "patch.diff")] + props, capture_output=True, text=True)
+                            os.path.join(d, "patch.diff"), "--no-tests"] + props, capture_output=True, text=True)
         last = [l for l in r.stdout.split("\n") if l.startswith("{")]
         res = json.loads(last[-1]) if last else {"results": {}}
         if "first_run" not in meta:
